@@ -19,8 +19,46 @@ class DtEvalInterp(DatetimeMixin, EvalInterp):
 ZONES = [('UTC', 0), ('+05:45 (Kathmandu)', 345), ('-03:30', -210), ('+13:45 (Chatham DST)', 825), ('-12:00', -720), ('+01:00', 60)]
 
 
+DST_ZONES = ['America/New_York', 'Australia/Lord_Howe', 'Europe/London', 'Pacific/Chatham']
+
+
 def _tz(minutes):
     return _dt.timezone(_dt.timedelta(minutes=minutes))
+
+
+def dst_zone(name):
+    """the IANA zone from the host's zoneinfo database, or None when the database is not installed (the zone is then skipped, with a note)"""
+    try:
+        import zoneinfo
+        return zoneinfo.ZoneInfo(name)
+    except Exception:       # ZoneInfoNotFoundError, ImportError
+        return None
+
+
+def exists_once(d, local):
+    """the naive wall time d exists exactly once in the zone (not in a gap, not in a repeated hour)"""
+    a = d.replace(tzinfo=local)
+    if a.replace(fold=0).utcoffset() != a.replace(fold=1).utcoffset():
+        return False
+    back = a.astimezone(_dt.timezone.utc).astimezone(local).replace(tzinfo=None)
+    return back == d
+
+
+def transition_samples(local, year=2024):
+    """naive wall times around every offset change of the zone in the year: 26 h / 3 h before, 3 h / 9 h / 30 h after, plus sub-millisecond parts"""
+    out = []
+    t = _dt.datetime(year, 1, 1, tzinfo=_dt.timezone.utc)
+    prev = t.astimezone(local).utcoffset()
+    for _ in range(366 * 24 * 2):
+        t += _dt.timedelta(minutes=30)
+        off = t.astimezone(local).utcoffset()
+        if off != prev:
+            for hours in (-26, -3, 3, 9, 30):
+                w = (t + _dt.timedelta(hours=hours)).astimezone(local).replace(tzinfo=None, fold=0, microsecond=(hours * 37037) % 1000000, second=(hours * 7) % 60)
+                if exists_once(w, local):
+                    out.append(w)
+            prev = off
+    return out
 
 
 def sample_datetimes():
@@ -40,7 +78,7 @@ def ref_normalize(v, local):
 def ref_iso(v, local):
     """the ISO text of the normalised instant in the local zone, truncated to milliseconds, offset as +HH:MM"""
     n = ref_normalize(v, local)
-    off = local.utcoffset(None)
+    off = n.replace(tzinfo=local).utcoffset()
     total = int(off.total_seconds() // 60)
     sign = '+' if total >= 0 else '-'
     hh, mm = divmod(abs(total), 60)
@@ -59,9 +97,13 @@ def run_datetime(repo, libfuncs, tier='quick', rule='E6d'):
         raise Unrecognised(rule, 'value_normalize_datetime / value_string / value_parse_datetime / evaluate_expression not found', vmod.rel)
     problems, n = [], 0
     getters = {'datetimeYear': 'year', 'datetimeMonth': 'month', 'datetimeDay': 'day', 'datetimeHour': 'hour', 'datetimeMinute': 'minute', 'datetimeSecond': 'second'}
-    zones = ZONES if tier == 'thorough' else ZONES[:4]
-    for zname, minutes in zones:
-        local = _tz(minutes)
+    zones = [(z, _tz(m), None) for z, m in (ZONES if tier == 'thorough' else ZONES[:4])]
+    for zname in (DST_ZONES if tier == 'thorough' else DST_ZONES[:2]):
+        z = dst_zone(zname)
+        if z is not None:
+            zones.append((zname + ' (DST rules)', z, transition_samples(z)))
+    run_datetime.zones = [z[0] for z in zones]
+    for zname, local, near in zones:
         it = DtLibInterp(repo, vmod, rule)
         it.local_tz = local
         lit = DtLibInterp(repo, repo.module('library'), rule)
@@ -77,7 +119,8 @@ def run_datetime(repo, libfuncs, tier='quick', rule='E6d'):
             except RaiseSig as sig:
                 return ('raise', sig.cls, sig.args_)
         values = []
-        for d in sample_datetimes():
+        base_samples = [d for d in sample_datetimes() + (near or []) if near is None or exists_once(d, local)]
+        for d in base_samples:
             values.append(('naive', d))
             values.append(('aware UTC', d.replace(tzinfo=_dt.timezone.utc)))
             if d.year > 100 and d.year < 8999:
@@ -86,6 +129,8 @@ def run_datetime(repo, libfuncs, tier='quick', rule='E6d'):
         for kind, v in values:
             desc = f'{kind} {v.isoformat()} in the zone {zname}'
             want_n = ref_normalize(v, local)
+            if near is not None and (not exists_once(want_n, local) or want_n.replace(tzinfo=local).utcoffset().total_seconds() % 60):
+                continue        # the property speaks of datetimes that exist in the zone, with a whole-minute offset
             # normalisation
             n += 1
             got = call(it, f_norm, [wrap(v)])
@@ -159,8 +204,8 @@ def run_datetime(repo, libfuncs, tier='quick', rule='E6d'):
             elif got[1].v != want_p or got[1].v.tzinfo is not None:
                 problems.append(('parse', f'value_parse_datetime({text!r}) in the zone {zname} gives {got[1].v!r}; it denotes {want_p!r} (local naive, to the millisecond)'))
         # arithmetic: (d + n) - d = n for integral n; d + n is the naive local datetime n ms later
-        for d in sample_datetimes()[:5]:
-            for ms in (0, 1, -1, 999, 86400000, -3600000, 1234567, 10 ** 12 if 2000 < d.year < 2100 else 5000):
+        for d in (sample_datetimes()[:5] if near is None else sample_datetimes()[:2] + near):
+            for ms in (0, 1, -1, 999, 86400000, -3600000, 1234567, 10 ** 12 if 2000 < d.year < 2100 else 5000) + ((6 * 3600000, -2 * 86400000, 7 * 86400000, -5400000) if near is not None else ()):
                 try:
                     want_sum = d + _dt.timedelta(milliseconds=ms)
                 except OverflowError:
@@ -177,7 +222,8 @@ def run_datetime(repo, libfuncs, tier='quick', rule='E6d'):
                     if got[0] != 'value' or not isinstance(got[1], HDate):
                         problems.append(('arith', f'{d.isoformat()} + {spelled!r} in the zone {zname} evaluates to {got[1]!r}; the language defines the datetime {ms} ms later'))
                         continue
-                    if got[1].v != want_sum:
+                    same_offset = near is None or d.replace(tzinfo=local).utcoffset() == want_sum.replace(tzinfo=local).utcoffset()
+                    if got[1].v != want_sum and same_offset:       # across an offset change only (d + n) - d = n is stated, not which of the two readings of 'n ms later' applies
                         problems.append(('arith', f'{d.isoformat()} + {spelled!r} in the zone {zname} gives {got[1].v!r}; {ms} ms later is {want_sum!r}'))
                         continue
                     G2 = ADict({'s': got[1], 'd': wrap(d)})
